@@ -118,10 +118,13 @@ func runC03(c *Ctx) {
 	L.Rule("R-C03-INV", "each writer preserves used == sum(keyCosts) on every path (linear effect summary)", 4)
 	L.Rule("R-C03-ADDFRESH", "every call of sampledLFU.add(key,cost) is reached only across the false edge of updateIfHas(key,..) for the same key, policy lock held throughout; add has no caller but defaultPolicy.Add; the applier admits only itemNew items", 6)
 	L.Rule("R-C03-ROOM", "roomLeft/Cap formulas; oversize test first; evict.add only behind a fresh room>=0 test for the same cost; exactly one add per admitting return", 6)
+	L.Rule("R-C03-RELEASE", "a deleted key's cost is given back: Cache.Del always queues its tombstone (blocking send) and the applier's delete arm removes the key from the policy and the map (otherwise RemainingCost keeps charging for a key that is no longer resident)", 3)
 	L.Rule("R-C03-COSTPLUMB", "applier passes i.Cost loaded after the Config.Cost and internal-cost adjustments with the documented guards", 3)
 
 	L.Rule("R-C03-EXPINDEX", "every map mutation is mirrored in the expiry index (exactly one matching em.add/update/del): an entry the index does not know is never swept, so its cost stays accounted after it expired and is no longer retrievable", 3)
 	expIndexRule(c, "R-C03-EXPINDEX")
+	delTombstoneRule(c, "R-C03-RELEASE")
+	tombstoneRule(c, "R-C03-RELEASE")
 	addersRule(c, "R-C03-ADDFRESH")
 	applierArmsRule(c, "R-C03-ADDFRESH")
 
